@@ -121,6 +121,7 @@ type podSim struct {
 type epSim struct {
 	ip                          string
 	pod                         string // "" => no targetRef
+	uid                         string // targetRef.uid, as the EndpointSlice controller writes it ("" in hand-written slices)
 	node                        string
 	ready, serving, terminating bool
 }
@@ -242,10 +243,12 @@ func (v *svcSim) object() *corev1.Service {
 	return o
 }
 
+func podUID(ns, name string, inc int) string { return fmt.Sprintf("pod-%s-%s-%d", ns, name, inc) }
+
 func (p *podSim) object() *corev1.Pod {
 	o := &corev1.Pod{ObjectMeta: metav1.ObjectMeta{
 		Name: p.name, Namespace: p.ns, Labels: cloneMap(p.labels),
-		UID:               types.UID(fmt.Sprintf("pod-%s-%s-%d", p.ns, p.name, p.inc)),
+		UID:               types.UID(podUID(p.ns, p.name, p.inc)),
 		CreationTimestamp: metav1.NewTime(baseTime.Add(time.Duration(p.inc) * time.Hour)),
 	}}
 	o.Spec.ServiceAccountName = p.sa
@@ -286,7 +289,7 @@ func (l *sliceSim) object() *discoveryv1.EndpointSlice {
 			Conditions: discoveryv1.EndpointConditions{Ready: boolp(e.ready), Serving: boolp(e.serving), Terminating: boolp(e.terminating)},
 		}
 		if e.pod != "" {
-			ep.TargetRef = &corev1.ObjectReference{Kind: "Pod", Name: e.pod, Namespace: l.ns}
+			ep.TargetRef = &corev1.ObjectReference{Kind: "Pod", Name: e.pod, Namespace: l.ns, UID: types.UID(e.uid)}
 		}
 		if e.node != "" {
 			ep.NodeName = strp(e.node)
@@ -969,7 +972,7 @@ func (s *sim) sliceSync(v *svcSim) {
 					i = r.Intn(v.maxSlices)
 					v.assign[p.name] = i
 				}
-				e := epSim{ip: p.ip, pod: p.name, node: p.node, serving: p.ready, terminating: p.terminating}
+				e := epSim{ip: p.ip, pod: p.name, uid: podUID(p.ns, p.name, p.inc), node: p.node, serving: p.ready, terminating: p.terminating}
 				e.ready = (p.ready || v.publish) && !p.terminating
 				want[i] = append(want[i], e)
 			}
